@@ -248,6 +248,70 @@ theorem C13_pstr (age : String → Nat) (p cs ds : List Char) (t1 t2 : Term) :
   intro c d h
   rw [termCompare_ofChars_append, termCompare_ofChars_ne age c d h]
 
+/-! ## what the three findings contradict -/
+
+/-- asymmetry of the strict part: no two terms are each strictly below the other. Finding
+    C13-1 observes exactly that on the pinned code (`compare(O1,A,B)`, `compare(O2,B,A)` with
+    `A = (1 '.' 2)` a structure cell, `B = [0|3]` a list cell: `O1 = O2 = (<)`). -/
+theorem C13_asymm (age : String → Nat) (a b : Term) :
+    ¬ (termCompare age a b = .lt ∧ termCompare age b a = .lt) := by
+  rintro ⟨h1, h2⟩
+  rw [C13_antisymm age a b, h1] at h2
+  exact absurd h2 (by decide)
+
+/-- the pair of finding C13-1 in the order of terms: heads first, `'.'(1,2) @> '.'(0,3)`. -/
+example (age : String → Nat) :
+    termCompare age (Term.cons (.int 1) (.int 2)) (Term.cons (.int 0) (.int 3)) = .gt ∧
+    termCompare age (Term.cons (.int 0) (.int 3)) (Term.cons (.int 1) (.int 2)) = .lt := by
+  refine ⟨?_, ?_⟩ <;> rw [C13_list_cell, C13_int, C13_int] <;> decide
+
+/-- the pair of finding C13-2: `"hij"` (wherever it lies in memory) is below `"hijk"`;
+    the pinned code crashes on it when `"hij"` is a suffix starting at byte 7 of a cell. -/
+example (age : String → Nat) :
+    termCompare age (Term.ofChars ['h', 'i', 'j']) (Term.ofChars ['h', 'i', 'j', 'k']) = .lt := by
+  rw [C13_strings]; decide
+
+/-- the family of finding C13-3: a list with one more element is above its prefix, so
+    `f(S, L1)` is above `f(L2, L2)` when `S`, `L2` denote `cs` and `L1` denotes `cs ++ [z]` —
+    for every length. The pinned code answers `=` for certain lengths. -/
+theorem C13_longer_list_gt (age : String → Nat) (cs : List Char) (z : Char) :
+    termCompare age (.str "f" [Term.ofChars cs, Term.ofChars (cs ++ [z])])
+                    (.str "f" [Term.ofChars cs, Term.ofChars cs]) = .gt := by
+  have h : termCompare age (Term.ofChars (cs ++ [z])) (Term.ofChars cs) = .gt := by
+    have h0 := termCompare_ofChars_append age cs [z] [] Term.nil Term.nil
+    rw [List.append_nil] at h0
+    rw [h0]
+    exact termCompare_of_cat_gt age _ _
+      (by simp [Term.cons, Term.ofChars, Term.ofList, Term.nil, cat])
+  have := C13_args_lex age "f" [Term.ofChars cs] [] [] (Term.ofChars (cs ++ [z])) (Term.ofChars cs)
+    rfl (by rw [h]; decide)
+  simpa [h] using this
+
+/-! ## byte level: the tail cell of a partial string that ends first (finding C13-2) -/
+
+/-- with the patch of C13-2, in all three `Continue` branches of `compare_pstr_slices` the cell
+    the comparison goes on with IS the tail cell laid out by the writer, for every byte offset
+    `l` at which the string is entered (aligned or not) and every number `pos` of common bytes.
+    (`otherTailCell`: the two branches that are right in the pinned code as well.) -/
+theorem C13_pstr_tail_cell (l pos : Nat) :
+    leftTailCell true l pos = tailCellWritten (l + pos) ∧
+    otherTailCell l pos = tailCellWritten (l + pos) :=
+  ⟨leftTailCell_fixed l pos, otherTailCell_eq l pos⟩
+
+/-- the pinned code in the branch "left ends first": right exactly when the misalignment and
+    the common length do not carry into the next cell; otherwise it names the cell BEFORE the
+    tail cell (string bytes and padding are then read as a heap cell). -/
+theorem C13_pstr_tail_cell_pinned_partial (l pos : Nat) :
+    (l % 8 + pos % 8 < 8 → leftTailCell false l pos = tailCellWritten (l + pos)) ∧
+    (8 ≤ l % 8 + pos % 8 → leftTailCell false l pos + 1 = tailCellWritten (l + pos)) :=
+  leftTailCell_pinned l pos
+
+/-- the input of finding C13-2: `"abcdefghij"` in cells 100 and 101 (bytes 800…809, tail cell
+    102), entered at byte 807 (`"hij"`), 3 common bytes with `"hijk"`: the pinned code goes on
+    with cell 101, the patched code with cell 102. -/
+example : leftTailCell false 807 3 = 101 ∧ leftTailCell true 807 3 = 102 ∧
+    tailCellWritten 810 = 102 := by decide
+
 /-! ## non-vacuity -/
 
 /-- an injective age assignment exists. -/
